@@ -772,11 +772,29 @@ pub fn run_authz_model(cfg: &ScenCfg, out: &mut RunOut) {
         }
         exps.push(ex);
     }
-    // the peer: handshake, then the requests one by one (so that the journal order is the request order)
+    // the peer: handshake, then the requests in bursts of 1-3 frames per TLS record (requests behind a
+    // denied or failing one are already buffered when it is answered); a burst may also be cut anywhere
+    // into two records. The server works through them in order, so the journal order is the request order.
+    let mut writes: Vec<(Vec<u8>, Option<usize>)> = Vec::new();
+    {
+        let mut i = 0;
+        while i < frames.len() {
+            let k = (1 + weighted(&[5, 3, 2]) as usize).min(frames.len() - i);
+            let mut burst = Vec::new();
+            for (tx, unit, pdu) in &frames[i..i + k] {
+                burst.extend(mbap_frame(*tx, *unit, pdu));
+            }
+            if k > 1 {
+                out.probe("tls_pipelined_burst");
+            }
+            let cut = if burst.len() > 8 && chance(1, 3) { Some(1 + choose(burst.len() as u32 - 1) as usize) } else { None };
+            writes.push((burst, cut));
+            i += k;
+        }
+    }
     let got = Arc::new(Mutex::new((Vec::<u8>::new(), false, String::new())));
     {
         let got = got.clone();
-        let frames = frames.clone();
         let pcfg = peer_client_config(2, cert, key);
         simtokio::task::spawn_named("tls-peer-client", async move {
             let tcp = match TcpStream::connect(addr).await {
@@ -792,14 +810,10 @@ pub fn run_authz_model(cfg: &ScenCfg, out: &mut RunOut) {
                 }
             };
             got.lock().unwrap().1 = true;
-            for (i, (tx, unit, pdu)) in frames.into_iter().enumerate() {
-                let f = mbap_frame(tx, unit, &pdu);
-                // every third frame travels in two TLS records, cut inside the header or the body
-                let ok = if i % 3 == 1 && f.len() > 8 {
-                    let cut = if i % 2 == 0 { 3 } else { 7 + (f.len() - 7) / 2 };
-                    stream.write_all(&f[..cut]).await.is_ok() && stream.flush().await.is_ok() && stream.write_all(&f[cut..]).await.is_ok()
-                } else {
-                    stream.write_all(&f).await.is_ok()
+            for (f, cut) in writes.into_iter() {
+                let ok = match cut {
+                    Some(cut) => stream.write_all(&f[..cut]).await.is_ok() && stream.flush().await.is_ok() && stream.write_all(&f[cut..]).await.is_ok(),
+                    None => stream.write_all(&f).await.is_ok(),
                 };
                 if !ok {
                     return;
